@@ -39,6 +39,7 @@ def run(chk: Check, drv: Driver):
                 if pr.status == "ok":
                     prepared.append(pr)
             kruns.compile_corr(chk, drv, prepared, cap=cap, limit=(120 if quick else None))
+            kruns.store_certificates(chk, drv, prepared)
             items = []
             for pr in prepared:
                 for _ in range(2 if quick else 5):
